@@ -49,8 +49,14 @@ func newHistWorld() *histWorld {
 		4: []interface{}{&pairP{P: w.p}, "s", func() {}}}
 	w.tm, w.nm = hessian.ExtractTypeNameMap([]interface{}{w.vals[2], w.vals[4], w.vals[5], w.vals[6]})
 	w.valid, w.garbage = map[int][]byte{}, map[int][]byte{}
+	// inputs for decode operations are rendered with a COPY of the name map: the caller's maps
+	// must be first touched by the history itself, or a write to them would predate the snapshot
+	nmCopy := map[string]string{}
+	for k, v := range w.nm {
+		nmCopy[k] = v
+	}
 	for i, v := range w.vals {
-		b, _ := hessian.ToBytes(v, w.nm)
+		b, _ := hessian.ToBytes(v, nmCopy)
 		w.valid[i] = b
 		g := append([]byte{}, b...)
 		if len(g) > 6 {
